@@ -247,7 +247,7 @@ class Gen:
             wide = [TYPES[SI], TYPES[UI], TYPES[SL], TYPES[UL], TYPES[SLL], TYPES[ULL]]
             params = []
             for k in range(n):
-                if k >= 6 and not self.cfg.get("narrow_stack_args", False):
+                if k >= 6 and not self.cfg.get("narrow_stack_args", True):
                     # char/short stack arguments hit NotImplementedError in the x86-64 backend
                     # (open finding of C40/C29); int and wider are generated
                     t = r.choice(wide)
